@@ -33,6 +33,13 @@ UNRELATED = [
     ["bun", 901, "tb", 900, False, False],
     ["inst", 901, "i0", ["mod", 900], "setattr", {"p": ["s", "s"], "bb": ["b", "tb"]}],
     ["inst", 901, "i1", ["mod", 900], "setattr", {"p": ["pr", "i0", "p"], "bb": ["b", "tb"]}],
+    ["sig", 901, "ax", 1, "i", "n"],
+    ["sig", 901, "ay", 2, "i", "n"],
+    ["inst", 901, "i2", ["mod", 900], "setattr", {"p": ["s", "s"], "bb": ["an", 1, {"x": ["s", "ax"], "y": ["s", "ay"]}]}],
+    ["inst", 901, "i3", ["mod", 900], "setattr", {"p": ["s", "s"], "bb": ["d", {"x": ["s", "ax"], "y": ["sl", ["s", "ay"], 0]}]}],
+] + [
+    ["inst", 901, f"j{k}", ["mod", 900], "setattr", {"p": ["s", "s"], "bb": ["d", {"x": ["s", "ax"], "y": ["s", "ay"]}]}] for k in range(10)
+] + [
     ["end", 901],
 ]
 
@@ -94,11 +101,15 @@ def exec_variant(arg):
     if junk:
         keep.append([object() for _ in range(junk)])
     if unrelated:
-        it0 = interp.Interp(h)
-        for op in UNRELATED:
-            it0.run(op)
-        it0.run(["to_proto", [901], True])
-        keep.append(it0)
+        # unrelated earlier work, done 1-6 times (each with its own objects, then dropped)
+        for rep in range(1 + (junk // 211) % 6):
+            it0 = interp.Interp(h)
+            for op in UNRELATED:
+                it0.run(op)
+            it0.run(["to_proto", [901], True])
+            if rep == 0:
+                keep.append(it0)
+            del it0
     try:
         out, texts = build_and_export(h, scn["ops"], scn["top"], verbose=scn.get("verbose", False), prior_equal=bool(unrelated))
     except Exception as e:  # noqa
